@@ -21,9 +21,10 @@ for try in 1 2 3 4; do
 done
 cp "$M/demo_test.go" "$WT/$DEMO_DIR/zz_demo_test.go"
 PKG="./$DEMO_DIR"
-go test -vet=off -count=1 -run 'C[0-9][0-9]|Demo|Mutant' "$PKG" > "$TMPM/demo_with.log" 2>&1; with=$?
+RACE=""; grep -q -- "-race" "$M/meta.json" && RACE="-race"
+go test $RACE -vet=off -count=1 -run 'C[0-9][0-9]|Demo|Mutant' "$PKG" > "$TMPM/demo_with.log" 2>&1; with=$?
 git checkout -q -- . 
-go test -vet=off -count=1 -run 'C[0-9][0-9]|Demo|Mutant' "$PKG" > "$TMPM/demo_without.log" 2>&1; without=$?
+go test $RACE -vet=off -count=1 -run 'C[0-9][0-9]|Demo|Mutant' "$PKG" > "$TMPM/demo_without.log" 2>&1; without=$?
 rm -f "$WT/$DEMO_DIR/zz_demo_test.go"
 echo "RESULT $NAME suite_with_patch=$suite_ok demo_with_patch_exit=$with demo_without_patch_exit=$without"
 if [ "$suite_ok" = yes ] && [ $with -ne 0 ] && [ $without -eq 0 ]; then
